@@ -21,6 +21,7 @@ from labtech.monitor import get_process_info
 from labtech.tasks import get_direct_dependencies
 from labtech.types import LabContext, ResultMeta, ResultsMap, Runner, RunnerBackend, Storage, Task, TaskMonitorInfo, TaskResult
 from labtech.utils import LoggerFileProxy, logger
+from labtech import _verif
 
 from .base import run_or_load_task
 
@@ -144,6 +145,7 @@ class ProcessExecutor:
                 ),
             )
             self._running_id_to_future_and_process[future.id] = (future, process)
+            _verif.emit('pstart', t=_verif.future_task(future.id))
             process.start()
 
     def submit(self, fn: Callable, /, *args, **kwargs) -> Future:
@@ -152,6 +154,7 @@ class ProcessExecutor:
         outcome of function call."""
         future = Future()
         self._pending_future_to_thunk[future] = functools.partial(fn, *args, **kwargs)
+        _verif.bind_future(future.id, self._pending_future_to_thunk[future])
         self._start_processes()
         return future
 
@@ -161,6 +164,7 @@ class ProcessExecutor:
         for future in pending_futures:
             future.cancel()
             del self._pending_future_to_thunk[future]
+            _verif.emit('exec_cancel', t=_verif.future_task(future.id))
 
     def stop(self) -> None:
         """Cancel all running futures and immediately terminate their execution."""
@@ -169,6 +173,7 @@ class ProcessExecutor:
             process.terminate()
             future.cancel()
             del self._running_id_to_future_and_process[future.id]
+            _verif.emit('exec_stop', t=_verif.future_task(future.id))
 
     def _consume_result_queue(self, *, timeout_seconds: Optional[float]):
         # Avoid race condition of a process finishing after we have
@@ -178,6 +183,7 @@ class ProcessExecutor:
             future for future, process in self._running_id_to_future_and_process.values()
             if not process.is_alive()
         ]
+        _verif.emit('sample', dead=[_verif.future_task(future.id) for future in dead_process_futures])
 
         def _consume():
             inner_timeout_seconds = timeout_seconds
@@ -198,6 +204,8 @@ class ProcessExecutor:
                         future.set_exception(result_or_ex)
                     else:
                         future.set_result(result_or_ex)
+                _verif.emit('consume', t=_verif.future_task(future_id),
+                            ok=int(not isinstance(result_or_ex, BaseException)))
 
         # Consume the result queue in a thread so that it is not
         # interrupt by KeyboardInterrupt, which can result in us not
@@ -216,6 +224,7 @@ class ProcessExecutor:
                 continue
             future.set_exception(TaskDiedError())
             del self._running_id_to_future_and_process[future.id]
+            _verif.emit('died', t=_verif.future_task(future.id))
 
     def wait(self, futures: Sequence[Future], *, timeout_seconds: Optional[float]) -> tuple[list[Future], list[Future]]:
         """Wait up to timeout_seconds or until at least one of the
@@ -355,6 +364,7 @@ class ProcessRunner(Runner, ABC):
             ))
 
     def submit_task(self, task: Task, task_name: str, use_cache: bool) -> None:
+        _verif.emit('submit', t=_verif.task_id(task), uc=int(bool(use_cache)))
         future = self._submit_task(
             executor=self.executor,
             task=task,
@@ -367,9 +377,11 @@ class ProcessRunner(Runner, ABC):
 
     def wait(self, *, timeout_seconds: Optional[float]) -> Iterator[tuple[Task, ResultMeta | BaseException]]:
         self._consume_log_queue()
+        _verif.emit('logs')
         done, _ = self.executor.wait(list(self.future_to_task.keys()), timeout_seconds=timeout_seconds)
         for future in done:
             task = self.future_to_task[future]
+            _verif.emit('yield', t=_verif.task_id(task), cancelled=int(future.cancelled))
             if future.cancelled:
                 continue
             try:
@@ -384,6 +396,7 @@ class ProcessRunner(Runner, ABC):
             for future in self.future_to_task
             if future not in done
         }
+        _verif.emit('pruned', ftt=_verif.task_ids(self.future_to_task.values()))
 
     def cancel(self) -> None:
         self.executor.cancel()
